@@ -247,3 +247,43 @@ let () =
            its 2-d core, the n-d reshape in front of it is corresponded only *)
         let dom = exact && (full || horizontal) in
         { model = m; spec; dom })
+
+(* ---------------------------------------------------------------- adversarial values (bit patterns of doubles) *)
+let hexvals dt str =
+  List.map (fun h -> rnd dt (Int64.float_of_bits (Int64.of_string ("0x" ^ h)))) (String.split_on_char ',' str)
+let is_special x = x <> x || (x = 0.0 && 1.0 /. x < 0.0)       (* NaN or -0.0 *)
+
+let () =
+  register "unaryx" (fun a -> match a with
+    | [ctx; dt; op; shp; hx] ->
+        let ctx = getS ctx and dt = dt_of (getS dt) and op = getS op in
+        let shape = ints (getL shp) in
+        let xs = hexvals dt (getS hx) in
+        let f = unary_op dt op in
+        let scalar = spec_unary f xs in
+        let spec = show_f dt shape scalar in
+        if ctx = "none" then { model = spec; spec; dom = true } else
+        let zs = zeros (List.length xs) in
+        let m = show_outcome dt shape zs (eval_unary_top (i2n (lanes ctx dt)) true f xs zs scalar) in
+        (* the theorem's premise "lane operation = f" is what this stream probes: dom = 1 everywhere except where
+           it is known to fail (relu / relu6 on -0.0 / NaN) *)
+        { model = m; spec; dom = not ((op = "relu" || op = "relu6") && List.exists is_special xs) }
+    | _ -> failwith "unaryx");
+  register "binaryx" (fun a -> match a with
+    | [ctx; dt; op; lshp; lhx; rshp; rhx] ->
+        let ctx = getS ctx and dt = dt_of (getS dt) and op = getS op in
+        let ls = ints (getL lshp) and rs = ints (getL rshp) in
+        let lx = hexvals dt (getS lhx) and rx = hexvals dt (getS rhx) in
+        let f = binary_op dt op in
+        (match np_bshape ls rs with
+         | None -> { model = "nothing"; spec = "unspecified"; dom = false }
+         | Some (os, ls', rs') ->
+           let nat = List.map i2n in
+           let scalar = spec_binary_bc f 0.0 (nat os) (nat ls') (nat rs') lx rx in
+           let spec = show_f dt os scalar in
+           if ctx = "none" then { model = spec; spec; dom = true } else
+           let zs = zeros (prod os) in
+           let m = show_outcome dt os zs (eval_binary_top (i2n (lanes ctx dt)) f true (nat os) (nat ls) (nat rs) lx rx zs scalar) in
+           { model = m; spec; dom = true })
+    | _ -> failwith "binaryx")
+
